@@ -15,6 +15,7 @@ func Ops() []*core.Op {
 	ops = append(ops, staticOps()...)
 	ops = append(ops, createOps()...)
 	ops = append(ops, driftOps()...)
+	ops = append(ops, driftPoolsOps()...)
 	for _, o := range ops {
 		o.Prop = "C03"
 	}
